@@ -173,7 +173,10 @@ def main():
     out = opt("--out", "/tmp/mutation.json")
     with_tests = "--with-tests" in a
     allc = []
+    only_files = opt("--files", None)
     for rel in FILES:
+        if only_files and not any(f in rel for f in only_files.split(",")):
+            continue
         tree = ast.parse(open(os.path.join(REPO, rel)).read())
         for path, op in candidates(tree):
             allc.append((rel, path, op))
